@@ -47,7 +47,7 @@ def call_parts(n):
         return n.get("fn") or callee.get("name"), obj, ch[1:]
     if k == "CXXOperatorCallExpr":
         args = ch[1:]
-        if n.get("cls"):  # member operator: first arg is the object
+        if "cls" in n:  # member operator: first arg is the object
             return n.get("fn"), (args[0] if args else None), args[1:]
         return n.get("fn"), None, args
     if k == "CallExpr":
